@@ -110,9 +110,20 @@ def flatten(lrecs):
         reqs = [[e['rid'], e['prio'], e['procs']] for e in evs if e['ev'] == 'MgrOffer']
         hdr['reqs'] += [[r['id']] + q for q in reqs]
         out.append({'ev': 'Begin', 's': r['id'], 'cap': st[0]['machprocs'], 'maxp': st[0]['maxp'], 'seq': 0})
+        # machines are numbered per session in the order in which they come up (the recorder of the repository's
+        # own tests numbers them across all managers of the process)
+        mnum = {}
+        for e in evs:
+            if e['ev'] == 'MgrStarted':
+                for m_ in e['machines']:
+                    mnum.setdefault(m_, len(mnum))
         for e in evs:
             e = dict(e)
             e['s'] = r['id']
+            if 'm' in e:
+                e['m'] = mnum.get(e['m'], 1000 + e['m'])
+            if 'machines' in e:
+                e['machines'] = [mnum[m_] for m_ in e['machines']]
             out.append(e)
     return [hdr] + out
 
@@ -228,7 +239,30 @@ def run(tier, replay=None):
                 raise Inconclusive('the real-session run of case %s failed: %s' % (rr['id'], rr['runerr'][:300]))
         chk.cov['live_events'] = sum(len(rr['events']) for rr in lrecs)
         if not replay:
-            drift_check(chk, wdir, lrecs)
+            # the repository's own machine-manager / bigmachine-executor tests, run under the recorder: every manager
+            # loop is one more session for the ledger monitor and for the conformance check
+            p2 = w.gotest('./exec/', 'TestVerifC14Dormant$', env={'VERIF_DORMANT': 'quick' if tier == 'quick' else 'all'}, timeout=1200)
+            dp = w.out('c14_dormant.ndjson')
+            drecs = vlib.read_ndjson(dp) if os.path.exists(dp) else []
+            if p2.returncode != 0 or not drecs:
+                raise Inconclusive('the repository\'s own manager tests did not run under the recorder:\n' + (p2.stdout or '')[-2000:])
+            ep = w.out('c14_empty.ndjson')
+            open(ep, 'w').close()
+            d2 = wdir + '/mon2'
+            r2 = vlib.tlc(d2, 'ClusterMon', 'ClusterMon.cfg', files={'c14_place.ndjson': ep, 'c14_live.ndjson': dp}, workers=1, timeout=1200)
+            if not os.path.exists(d2 + '/c14_verdict.json'):
+                raise Inconclusive('ClusterMon produced no verdict for the repository\'s tests:\n' + r2.out[-2000:])
+            chk.add_tlc('ClusterMon (repository tests)', r2)
+            v2 = json.load(open(d2 + '/c14_verdict.json'))
+            for b in v2['bad']:
+                rr = next(x for x in drecs if x['id'] == b['id'])
+                chk.violation({'mode': 'repo-tests', 'what': b['what']}, 'repository test session %s: %s at event seq %s' % (b['id'], b['what'], b.get('seq')),
+                              {'case': {'id': 1, 'mode': 'dormant'}, 'record': {k: rr[k] for k in rr if k != 'events'}})
+            chk.cov['repo_test_manager_sessions'] = len(drecs)
+            chk.cov['repo_test_manager_events'] = sum(len(x['events']) for x in drecs)
+            chk.cov['repo_tests_failed_under_recorder'] = drecs[0].get('repo_tests_failed', [])
+            chk.cov['traces_validated_against_impl'] += len(drecs)
+            drift_check(chk, wdir, lrecs + drecs)
         chk.cov['grants'] = sum(1 for rr in lrecs for e in rr['events'] if e['ev'] == 'MgrGrant')
         for c in cases:
             chk.case({k: c[k] for k in c if k != 'id'}, nontrivial=c['mode'] in ('live', 'e2e') or len(c['reqs']) + len(c['machs']) >= 3)
